@@ -154,10 +154,16 @@ def _alpha(P, R):
             oki = True
     fpush = [c for (c, s) in A.calls_with_receiver_field(ins, "facts", AMI) if c.name == "std::vec::Vec::push"]
     ipush = [c for c in ins.calls() if c.name == "std::vec::Vec::push" and c not in fpush and c.bb in ins.normal_blocks()]
-    idx_ok = ipush and all(fmt_named(ins.sym_operand(c.args[1]), 6) in ("idx", "std::vec::Vec::len(self.facts)") for c in ipush)
+    # the position filed in the indexes is `self.facts.len()` read before the fact is pushed (whatever the variable is called)
+    def _len_site(c):
+        v = strip(ins.sym_operand(c.args[1]))
+        if v[0] == "call" and v[1] == "std::vec::Vec::len" and len(v[2]) == 1 and A.field_of(v[2][0], "facts", AMI):
+            return v[3]
+        return None
+    sites = [_len_site(c) for c in ipush]
+    idx_ok = bool(ipush) and all(b is not None for b in sites)
     order_ok = fpush and ipush and all(not ins.dominates(fpush[0].bb, c.bb) for c in ipush)
-    idx_def = [l for l in ins.local_by_name("idx")]
-    len_before = idx_def and "Vec::len(self.facts)" in fmt_sym(ins.sym_local(idx_def[0]), maxdepth=5) and fpush and all(ins.dominates(d[0], fpush[0].bb) for d in ins.defs().get(idx_def[0], []))
+    len_before = idx_ok and fpush and all(ins.dominates(b, fpush[0].bb) and b not in ins.reach(fpush[0].target) for b in sites)
     if oki and idx_ok and order_ok and len_before:
         R.hold("b", "insert updates every existing index with position = facts.len() taken before the push", fn=ins)
     else:
